@@ -163,7 +163,7 @@ namespace OpenMEEG {
     }
 
     void Matrix::info() const {
-        if (nlin()==0 && ncol()==0) {
+        if (nlin()==0 || ncol()==0) {
             std::cout << "Empty matrix" << std::endl;
             return;
         }
